@@ -240,17 +240,7 @@ Fixpoint hv_spec (d : nat) (P : list point) : Q :=
 (* which points enter, from the English statement: feasible members, normalised by the
    bounds, not worse than the nadir in any objective; clipped at the ideal; turned into
    goodness coordinates (1 - x for minimised, x for maximised objectives) *)
-Fixpoint zip3 {A B C D} (f : A -> B -> C -> D) (a : list A) (b : list B) (c : list C) : list D :=
-  match a, b, c with
-  | x :: a', y :: b', z :: c' => f x y z :: zip3 f a' b' c'
-  | _, _, _ => []
-  end.
-Fixpoint zip2 {A B C} (f : A -> B -> C) (a : list A) (b : list B) : list C :=
-  match a, b with
-  | x :: a', y :: b' => f x y :: zip2 f a' b'
-  | _, _ => []
-  end.
-Definition spec_norm (mins maxs objs : list Q) : list Q := zip3 (fun o lo hi => (o - lo) / (hi - lo)) objs mins maxs.
+Definition spec_norm (mins maxs objs : list Q) : list Q := normv mins maxs objs.
 Definition not_worse_than_nadir (mx : bool) (x : Q) : bool := if mx then Qle_bool 0 x else Qle_bool x 1.
 Definition goodness (mx : bool) (x : Q) : Q := if mx then clip01 x else 1 - clip01 x.
 Definition spec_points (dirs : list bool) (mins maxs : list Q) (set : list isol) : list point :=
